@@ -270,6 +270,17 @@ func runC20(c *fw.Ctx) {
 				text = gen.PrintCanonical(cs.Script).Text
 			}
 		}
+		if class == "typed" && r.Chance(1, 6) {
+			// a monetary / asset value whose asset name needs escaping in JSON (assets that arrive
+			// through variables are not restricted to the literal grammar)
+			weird := r.Pick(`US\u0041D`, `US"D`, "US\tD", `A\B`, "é/2", `<USD>`, `US\"D`)
+			cs.Script.Vars = append(cs.Script.Vars, &gen.VarDecl{Type: "monetary", Name: "weird"})
+			cs.Vars["weird"] = weird + " 10"
+			cs.Script.Stmts = append(cs.Script.Stmts, &gen.Call{Name: "set_tx_meta", Args: []gen.Expr{gen.S("weird"), gen.V("weird")}},
+				&gen.Call{Name: "set_account_meta", Args: []gen.Expr{gen.A("a"), gen.S("weird"), gen.V("weird")}})
+			text = gen.PrintCanonical(cs.Script).Text
+			class = "typed+odd-asset"
+		}
 		if !oneCase(c, r, dir, id, class, text, cs) {
 			return
 		}
